@@ -55,15 +55,17 @@ void *memcpy (void *d, const void *s, size_t n)
 }
 void *memset (void *d, int c, size_t n)
 {
-  __CPROVER_assert (n <= 64, "memset model: at most one block");
+  __CPROVER_assert (n <= 160, "memset model: at most the size of the context");
   unsigned char *dp = d;
-  for (size_t i = 0; i < 64; i++)   /* XV_UNWIND 64 */
+  for (size_t i = 0; i < 160; i++)   /* XV_UNWIND 160 */
     if (i < n) dp[i] = (unsigned char) c;
   return d;
 }
 #endif
 
-#define MAXLEN 100000
+#ifndef MAXLEN
+#define MAXLEN 600
+#endif
 const unsigned char *G_MSG; size_t G_LEN, G_PADLEN; size_t G_NBLK;
 struct st { U32 a, b, c, d; };
 /* chaining values: a function of the block index for the fixed message;
@@ -82,9 +84,12 @@ const void *body_stub (CTX *ctx, const void *data, unsigned long size)
   else
     {
       XV_STUBPRE ("C16", size == 64, "one block at a time from the context buffer");
-      size_t j = g_j & 63;
-      XV_STUBPRE ("C16", ((const unsigned char *) data)[j] == G_MSG[64 * G_NBLK + j],
-                  "the buffered block equals the corresponding block of the padded message (arbitrary byte)");
+      /* arbitrary byte g_j of the padded message: if it lies in this block,
+         the buffered byte must equal it (every byte of every block is checked
+         in some instantiation of g_j) */
+      if (g_j >= 64 * G_NBLK && g_j < 64 * G_NBLK + 64)
+        XV_STUBPRE ("C16", ((const unsigned char *) data)[g_j - 64 * G_NBLK] == G_MSG[g_j],
+                    "the buffered block equals the corresponding block of the padded message (arbitrary byte)");
     }
   struct st in = __CPROVER_uninterpreted_gstate (G_NBLK);
   XV_STUBPRE ("C16", ctx->a == in.a && ctx->b == in.b && ctx->c == in.c && ctx->d == in.d, "chaining value carried from the previous block");
@@ -112,7 +117,9 @@ static void setup (void)
   XV_ASSUME (len <= MAXLEN);
   G_LEN = len;
   G_PADLEN = ((len + 8) / 64 + 1) * 64;
-  unsigned char *m = malloc (G_PADLEN);
+  /* constant-size object holding the padded message (cheaper for CBMC than a
+     symbolic-size one); bytes beyond G_PADLEN are never addressed by a passing run */
+  unsigned char *m = malloc (((MAXLEN + 8) / 64 + 1) * 64);
   XV_ASSUME (m != NULL);
   /* RFC 1321 3.1/3.2 padding, stated at the arbitrary index g_j and at the
      fixed positions the obligations need */
